@@ -156,6 +156,10 @@ def rules(ctx):
             ctx.check(good, 'R-HANDLE', 'returned-writer', f.loc(), 'same index and dimensions', 'the writer returned by prepare_changing_distance has another index/dimension')
     n = vec_rules.trunc_rule(ctx, 'R-TRUNC', only=['prepare_changing_distance'])
     ctx.floor('R-TRUNC', 'to_vec sites in the metric change', n, 1)
+    # "keeps the vectors as representable under the new metric": the re-encoding goes through the new codec's `from_vec`,
+    # which must quantise exactly like the entry point used for insertions and queries (C12's packer / entry-point rules)
+    from props import C12
+    C12.r_pack_bits(ctx)
     C07.r_index_key(ctx)
     C07.r_index_arg(ctx)
     C06.r_open(ctx)
